@@ -139,7 +139,7 @@ class C06(StreamProp):
                     data = b''.join(frames)
                     out.append(gen_streams.reader_case('l%d' % k, role, [data], len(frames) + 2, mms=M, mfs=F, rbs=rbs)); k += 1
                 # announced lengths with no payload
-                for n in (F + 1, 2**16, 2**32, 2**63 - 1, 2**63, 2**64 - 1):
+                for n in (F + 1, 2**16, 2**20, 2**27, 2**32, 2**63 - 1, 2**63, 2**64 - 1):
                     hdr = bytes([0x82, (0x80 if role == 's' else 0) | 127]) + n.to_bytes(8, 'big') + (b'\x01\x02\x03\x04' if role == 's' else b'')
                     out.append(gen_streams.reader_case('l%d' % k, role, [hdr], 4, mms=M, mfs=F, rbs=rbs, end=None)); k += 1
         return reid(out)
@@ -153,6 +153,14 @@ class C06(StreamProp):
                 n = len(ws.unhx(r[5:]))
                 if case.mms is not None and n > case.mms:
                     return 'message-over-limit: delivered %d bytes with max_message_size %d' % (n, case.mms)
+        # supporting runtime test (allocator): inside read calls no single allocation request and no peak of live bytes may
+        # grow with what the peer merely announces: bound = small multiple of the configured limits + read buffer
+        st = ws.alloc_stats(trace)
+        if st is not None and case.mfs is not None and case.mms is not None:
+            bound = 4 * (case.mfs + case.mms) + 2 * case.rbs + 4096
+            if st[0] > bound or st[1] > 2 * bound:
+                return ('allocation-exceeds-limits: a read allocated %d bytes in one request (peak %d) with max_frame_size %d, max_message_size %d, read_buffer_size %d'
+                        % (st[0], st[1], case.mfs, case.mms, case.rbs))
         # once a frame header announced more than max_frame_size, that frame must never be accepted, however often
         # the caller retries, and no call may try to allocate for it (a panic in reserve is such an attempt)
         seen_cap = False
@@ -545,6 +553,16 @@ class C14(E2Prop):
                 out.append(gen_e2.history('f%d' % k, role, ops, ['PI', 'PI2', 'PI', 'PI0', 'PI', 'T'], 'wb8', 'ok', wbs, max(mx, gen_e2.frame_size(role, 4)))); k += 1
         for i in range(500 if tier == 'quick' else 6000):
             out.append(gen_e2.random_history(rng, 'h%d' % i, tight_prob=0.8))
+        # set_config changes both sizes at run time: the new bound must be the one enforced
+        for role in 'sc':
+            fs = gen_e2.frame_size(role, 4)
+            for (m0, m1) in ((fs, 3 * fs), (3 * fs, fs + 1), (fs + 2, None), (None, 2 * fs), (2 * fs, 2 * fs + 1), (40, 12 + fs)):
+                for wpat in ('wb8', 'accept', 'wb2'):
+                    for pos in (0, 1, 2):
+                        ops = ['wb:00010203'] * 5
+                        ops.insert(pos, 'sb:0:%s' % ('inf' if m1 is None else m1))
+                        ops += ['f', 'wb:00010203', 'f']
+                        out.append(gen_e2.history('s%d' % k, role, ops, [], wpat, 'ok', 0, m0)); k += 1
         # batching after the connection went through automatic replies under a blocked transport
         for role in 'sc':
             for wbs in (10, 100, 600):
@@ -558,7 +576,7 @@ class C14(E2Prop):
         case, ots = self.parse(case_line, trace)
         v = monitors.mon_c14(case, ots)
         if v: return v
-        return monitors.mon_c14_bound(case, ots) or monitors.mon_c14_batching(case, ots)
+        return monitors.mon_c14_bound(case, ots) or monitors.mon_c14_batching(case, ots) or monitors.mon_c14_full_exact(case, ots)
 
 class C07(E2Prop):
     id = 'C07'
@@ -603,6 +621,11 @@ class C07(E2Prop):
                                      rbs=rng.choice([0, 1, 7, 4096])))
         for i in range(300 if tier == 'quick' else 3000):
             out.append(gen_e2.random_history(rng, 'h%d' % i, long=True))
+        for role in 'sc':
+            data = b''.join(gen_streams.stream_case(rng)['frames']) + gen_e2.peer_frame(role, 2, b'x' * 40)
+            for rbs in (0, 1, 5, 8, 16):
+                for pre in (1, 6, 9, 17, 40, len(data)):
+                    out.append(ws.scase_line('z', role, ['r', 'r', 'r'], ['d:' + ws.hx(data[pre:])] if data[pre:] else [], [], [], rbs=rbs, pre=data[:pre], mms=1000, mfs=1000))
         for role in 'sc':
             for n_ in (11, 2**16, 2**32, 2**63 - 1, 2**63, 2**64 - 1):
                 for mfs in (0, 10, 1000):
